@@ -224,6 +224,27 @@ pub fn cases(thorough: bool) -> Vec<Case> {
             }
         }
     }
+    // one evaluated TEXT that holds the faulting form followed by definitions: the forms behind the
+    // fault are neither evaluated nor expanded - a later use of what they would define is unbound
+    let mut seen_kinds: Vec<&str> = vec![];
+    for (kind, f) in faults() {
+        if seen_kinds.contains(&kind) {
+            continue;
+        }
+        seen_kinds.push(kind);
+        let mut forms: Vec<String> = vec![];
+        let fail_index = forms.len();
+        forms.push(format!("{} (define-syntax late-kw (syntax-rules () ((late-kw a) (list a a)))) (define late-var 5) (define (late-proc) 6)", f));
+        forms.push("(late-kw 1)".to_string());
+        forms.push("late-var".to_string());
+        forms.push("(late-proc)".to_string());
+        forms.push("(define (late-kw a) (list 'procedure a))".to_string());
+        forms.push("(late-kw 2)".to_string());
+        for p in PROBES {
+            forms.push(p.to_string());
+        }
+        out.push(Case { forms, fail_index, tags: vec![format!("fault={}", kind), "ctx=fault-then-definitions-in-one-text".to_string()] });
+    }
     // fault ladders: the same fault N times in a row on one interpreter (directly and at the bottom
     // of a non-tail recursion 20 deep), for every N up to the bound, then the probes and a valid
     // recursion: whatever a failing evaluation leaves behind (counters, marks, frames) adds up here
